@@ -34,3 +34,7 @@ def failed_op_before_successful_op(f):
 
 def optimiser_exhausted(f):
     return bool(f.get("optimiser_exhausted"))
+
+
+def start_by_name_with_cached_tree(f):
+    return bool(f.get("start_option")) and bool(f.get("tree_cached_before_walk"))
